@@ -55,6 +55,7 @@ RULE = (
     "least one ALT; distinct by hash of (record text, options, program)"
 )
 LEVEL_TEXT += " Program runs cycle through no / scalar / per-sample-file --inbreeding; the exact-caller functions were driven with each generated locus's own haplotypes and frequencies and 150 copies of a read matching every dead allele: posterior exactly 0, for inbreeding 0, 0.1 and 0.5."
+LEVEL_TEXT += ' Session 4: priors of extreme dynamic range (1e-9 .. 1e-20, not zero) and a spy on the sampler constructors of call / call-pedigree: every retained, unmasked allele of positive prior must be handed to the sampler.'
 ASSUMPTIONS = [
     "NOA is demanded when no unmasked allele is retained, AF0 when unmasked alleles are retained but their named frequencies are all zero (the header descriptions of the two filters)",
     "a usable record must not carry NOA/AF0",
